@@ -462,8 +462,8 @@ _IMPORT_SNIPPET = r'''
 import sys, importlib
 sys.path.insert(0, %r)
 try:
-    importlib.import_module(%r)
-    print("LOADED")
+    m = importlib.import_module(%r)
+    print("NAMESPACE" if getattr(m, "__file__", None) is None else "LOADED")
 except ImportError as e:
     print("IMPORTERROR", str(e)[:80])
 '''
@@ -494,12 +494,18 @@ def conformance(ref_dir, form='F0'):
                  ('most', int(total * 0.9), int(ns * 0.9)), ('complete', total, ns)]
         import concurrent.futures as cf
 
+        cases.append(('directory-named-like-the-module', -1, -1))
+        cases.append(('directory-and-complete-file', total, ns))
+
         def one(case):
             label, nreal, nstub = case
             d = os.path.join(work, 'case-' + label)
             os.makedirs(d)
-            with open(os.path.join(d, os.path.basename(so)), 'wb') as f:
-                f.write(data[:nreal])
+            if label.startswith('directory'):
+                os.makedirs(os.path.join(d, name))          # e.g. a per-module build/lock directory
+            if nreal >= 0:
+                with open(os.path.join(d, os.path.basename(so)), 'wb') as f:
+                    f.write(data[:nreal])
             e = dict(os.environ)
             e['PYTHONPATH'] = env.REPO
             p = subprocess.run([sys.executable, '-c', _IMPORT_SNIPPET % (d, name)], stdout=subprocess.PIPE,
@@ -507,13 +513,23 @@ def conformance(ref_dir, form='F0'):
             out = p.stdout.decode(errors='replace')
             if sig_of(p.returncode) in (signal.SIGBUS, signal.SIGSEGV):
                 real = 'crash'
+            elif 'NAMESPACE' in out:
+                real = 'namespace'
             elif 'LOADED' in out:
                 real = 'ok'
             elif 'IMPORTERROR' in out:
                 real = 'importerror'
             else:
                 real = 'other(rc=%d)' % p.returncode
-            stub = cachesim.classify_so(stub_so[:nstub])[0]
+            if label.startswith('directory'):
+                ds = os.path.join(work, 'stub-' + label)
+                os.makedirs(os.path.join(ds, name))
+                if nstub >= 0:
+                    with open(os.path.join(ds, name + cachesim.EXT), 'wb') as f:
+                        f.write(stub_so[:nstub])
+                stub = cachesim.resolve_import([ds], name)[0]
+            else:
+                stub = cachesim.classify_so(stub_so[:nstub])[0]
             return {'case': label, 'real_bytes': nreal, 'stub_bytes': nstub, 'real': real, 'stub': stub,
                     'agree': real == stub}
         with cf.ThreadPoolExecutor(max_workers=len(cases)) as ex:
